@@ -82,7 +82,7 @@ class Proto:
                 raise RuntimeError("harness: a handle is already open")
             rn = a["rname"]
             cs = protolib.scan(self.d, [rn])[0]
-            kw = self.mfkw(cs, move=a["mode"] in ("r", "r+", "a") and self.rng.random() < 0.15)
+            kw = self.mfkw(cs, move=a["mode"] in ("r", "r+", "a") and (self.rng.random() < 0.15 or bool(a.get("mfalt"))))
             try:
                 if a["bylist"]:
                     fl = [protolib.container_path(self.d, c["fn"]) for c in cs]
